@@ -35,14 +35,17 @@ EXPLANATION = ("update_refines_fresh / cache_invariant / no_typeErr_contiguous_p
                "per call; independently every observation is compared with a freshly constructed collider")
 PARTIAL = {
     "update_refines_fresh (MeshGraph.support_function)":
-        "proved up to the hill-climbing start index (runFresh threads it); full equality with a fresh MeshGraph is "
-        "update_refines_fresh_startIndependent, conditional on the hill climb being start-independent, which is C03's "
-        "history-independence statement about mesh.hill_climb_mesh_extreme and is not proved here (the kernel is a "
-        "parameter of this model)",
-    "no_exception_contiguous_pose (MeshGraph)":
-        "conditional on HillClimbTotal (the hill climb returns an index into the vertex array: no KeyError/IndexError), "
-        "a C03/C19 fact about the kernel; unconditional for all other classes; no_typeErr_contiguous_pose is "
-        "unconditional for all classes",
+        "proved up to the hill-climbing start index (runFresh threads it). Linked to C03 in D3.C14Link: C14's mesh "
+        "support IS C03's meshCall (meshSupport_is_meshCall); under C03's Unimodal EPS 0 with a unique maximiser the "
+        "climb is start independent (hillClimb_startIndependent_of_unique) and run = runFreshPlain "
+        "(update_refines_fresh_mesh_unique); without uniqueness only the value-level link holds (support_values_close, "
+        "mesh_support_vertices_close). Unimodal and the unique maximiser stay hypotheses as in C03; exact index "
+        "equality is false under ties",
+    "no_exception_contiguous_pose (MeshGraph) (closed)":
+        "closed in D3.C14Link: for the kernel whose hill climb is C03's model, on MeshWF data with a valid start (or "
+        "raw TrianglesOk via mesh_build_wf) every call of every history returns normally "
+        "(no_exception_contiguous_pose_mesh/_mesh_raw/_on); the old HillClimbTotal hypothesis (false for the real "
+        "kernel on malformed meshes) is no longer used; unconditional for all other classes as before",
 }
 ASSUMPTIONS = [
     "arrays are values: nobody writes into a pose array after passing it to update_pose/the constructor (most classes "
